@@ -33,6 +33,8 @@ METHODS = {
     'UpdateThing': dict(snake='update_thing', req='Req', resp='Thing'),
     'CreateThing': dict(snake='create_thing', req='Req', resp='Thing'),
     'PlainThing': dict(snake='plain_thing', req='Req', resp='Thing'),
+    'Import': dict(snake='import_', req='Req', resp='Thing'),
+    'CreateChannel': dict(snake='create_channel', req='Req', resp='Thing'),
     'WatchThings': dict(snake='watch_things', req='Req', resp='Thing'),
     'UploadThings': dict(snake='upload_things', req='Req', resp='Thing'),
     'ChatThings': dict(snake='chat_things', req='Req', resp='Thing'),
@@ -61,6 +63,8 @@ def carrier_api():
         m('UpdateThing', 'update', sigs=['inner.name,tags', 'labels,kind,class,flag,opt_request_id']),
         m('CreateThing', 'create', sigs=['name']),
         m('PlainThing', 'plain'),
+        m('Import', 'import'),
+        m('CreateChannel', 'createChannel', ss=True),
         m('WatchThings', 'watch', sigs=['name'], ss=True),
         m('UploadThings', 'upload', cs=True),
         m('ChatThings', 'chat', cs=True, ss=True),
